@@ -179,6 +179,11 @@ func (lb *LB) linOf(v ssa.Value) lin {
 	}
 	if r := lb.fieldRep(v); r != nil {
 		v = r
+	} else if _, _, isInt := intKind(v.Type()); isInt {
+		// an integer field reached through a longer path (hs.clientHello.vers) that the function never writes
+		if r := fieldValueRep(v); r != nil {
+			v = r
+		}
 	}
 	if prm, ok := v.(*ssa.Parameter); ok && len(lb.extra) > 0 {
 		// a parameter that has the same constant value at every call site
@@ -3185,7 +3190,10 @@ func fieldValueRep(v ssa.Value) ssa.Value {
 	}
 	root := addrRoot(ld)
 	if _, isParam := root.(*ssa.Parameter); isParam {
-		return nil // paramFieldRep handles parameters
+		if _, direct := fa.X.(*ssa.Parameter); direct {
+			return nil // paramFieldRep handles fields of the parameter itself
+		}
+		// a field reached through a pointer held in the parameter (hs.clientHello.vers): same conditions as below
 	}
 	f := ld.Parent()
 	if f == nil {
@@ -3193,19 +3201,64 @@ func fieldValueRep(v ssa.Value) ssa.Value {
 	}
 	clean := true
 	var loads []*ssa.UnOp
+	// every field on the path (hs.clientHello, then .vers): none of them may be assigned in the function
+	type pf struct {
+		t    types.Type
+		i    int
+		base ssa.Value
+	}
+	var path []pf
+	for p := ssa.Value(fa); ; {
+		switch y := p.(type) {
+		case *ssa.FieldAddr:
+			path = append(path, pf{y.X.Type(), y.Field, y.X})
+			p = y.X
+			continue
+		case *ssa.UnOp:
+			if y.Op == token.MUL {
+				p = y.X
+				continue
+			}
+		}
+		break
+	}
 	instrsOf(f, func(_ *ssa.BasicBlock, in ssa.Instruction) {
 		switch x := in.(type) {
 		case *ssa.Store:
-			if fx, ok := x.Addr.(*ssa.FieldAddr); ok && fx.Field == fa.Field && fx.X.Type() == fa.X.Type() {
-				clean = false
+			if fx, ok := x.Addr.(*ssa.FieldAddr); ok {
+				for _, q := range path {
+					if fx.Field == q.i && types.Identical(fx.X.Type(), q.t) {
+						if al, fresh := fx.X.(*ssa.Alloc); fresh && q.base != ssa.Value(al) {
+							continue // a field of an object created in this function: a different object
+						}
+						clean = false
+					}
+				}
 			}
 		case ssa.CallInstruction:
-			for _, a := range x.Common().Args {
+			for ai, a := range x.Common().Args {
 				if a == root {
 					if sc := x.Common().StaticCallee(); sc != nil && (sc.Name() == "marshal" || sc.Name() == "equal") {
 						continue
 					}
 					clean = false
+				} else if len(path) > 1 && types.Identical(a.Type(), fa.X.Type()) {
+					// the object holding the field is handed to a callee: fine when the callee provably does not
+					// write that field of that argument (write-effect summary), otherwise the loads may differ
+					sc := x.Common().StaticCallee()
+					if sc != nil && (sc.Name() == "marshal" || sc.Name() == "equal") {
+						continue
+					}
+					if sc == nil || !inRepo(sc) || fxCache == nil || x.Common().IsInvoke() {
+						clean = false
+						continue
+					}
+					fn := fieldName(fa.X.Type(), fa.Field)
+					for r := range fxCache.Writes(sc) {
+						if r.Kind == rkParam && r.Idx == ai && (r.Field == "" || r.Field == fn) {
+							clean = false
+						}
+					}
 				}
 			}
 		case *ssa.UnOp:
